@@ -75,8 +75,15 @@ func C04(c *Ctx) {
 	}
 	sort.Strings(sv)
 	for _, en := range entries {
-		f := c.fn(pkg, "Server", en)
-		if f == nil {
+		// the dispatchers are mandatory anchors; the inner handlers are analysed when they exist as functions of their own
+		// (inlined into a dispatcher, by hand or by the pre-pass, they are covered by the dispatcher's rows)
+		var f *ssa.Function
+		if en == "handleLCP" || en == "handlePAP" || en == "handleIPCP" || en == "handleIPPacket" {
+			f = c.fn(pkg, "Server", en)
+		} else {
+			f = c.P.SSAFunc(pkg, "Server", en)
+		}
+		if f == nil || len(f.Blocks) == 0 {
 			continue
 		}
 		// only the dispatchers reachable from handleSession are entry points of the frame alphabet; the inner handlers
@@ -212,6 +219,11 @@ func stateName(states map[string]string, v string) string {
 // verdictValue: v is false, or AuthResponse.Accepted (RADIUS verdict), or true only where no RADIUS client is configured;
 // φ-nodes are followed edge by edge.
 func verdictValue(v ssa.Value, at *ssa.BasicBlock, depth int) (bool, string) {
+	return verdictValueVia(v, at, nil, depth)
+}
+
+// via: the block the value flows into next (a φ's block), so that the fact of the edge at→via counts as well
+func verdictValueVia(v ssa.Value, at, via *ssa.BasicBlock, depth int) (bool, string) {
 	if depth > 6 {
 		return false, "verdict expression too deep"
 	}
@@ -222,7 +234,13 @@ func verdictValue(v ssa.Value, at *ssa.BasicBlock, depth int) (bool, string) {
 		}
 		if isConstBool(x, true) {
 			// only when radiusClient == nil
-			for _, ft := range flow.FactsAt(at) {
+			facts := flow.FactsAt(at)
+			if via != nil {
+				if ef, ok := flow.EdgeFact(at, via); ok {
+					facts = append(facts, ef)
+				}
+			}
+			for _, ft := range facts {
 				if name, _, ok := guardName(ft.Cond); ok {
 					if (name == "Server.radiusClient!=nil" && !ft.Pol) || (name == "Server.radiusClient==nil" && ft.Pol) ||
 						(name == "Authenticator.radiusClient!=nil" && !ft.Pol) || (name == "Authenticator.radiusClient==nil" && ft.Pol) {
@@ -234,7 +252,7 @@ func verdictValue(v ssa.Value, at *ssa.BasicBlock, depth int) (bool, string) {
 		}
 	case *ssa.Phi:
 		for i, e := range x.Edges {
-			if ok, why := verdictValue(e, x.Block().Preds[i], depth+1); !ok {
+			if ok, why := verdictValueVia(e, x.Block().Preds[i], x.Block(), depth+1); !ok {
 				return false, why
 			}
 		}
